@@ -144,6 +144,28 @@ def do_replay(prop, mod, path):
     with open(path) as fh:
         rec = json.load(fh)
     witness = unjson(rec["witness"])
+    sig = str(rec.get("signature", ""))
+    if sig.startswith(("hang:", "uncaught:")) and isinstance(witness, dict) and "shard" in witness:
+        # found by the runner itself (watchdog / escaped exception), not by the property module: run that shard again
+        import ast
+
+        try:
+            desc = ast.literal_eval(witness["shard"])
+        except (ValueError, SyntaxError):
+            print("machinery error: the shard description in the replay file cannot be read", file=sys.stderr)
+            return 2
+        runs = 1 if sig.startswith("hang:") else 2
+        seen = [sorted(_run_shard((mod.__name__, desc, rec.get("tier", "quick"))).viol) for _ in range(runs)]
+        print("replay signature:", sig)
+        print("replay observation:", json.dumps(seen[0])[:2000])
+        if any(x != seen[0] for x in seen):
+            print("machinery error: replay is not deterministic", file=sys.stderr)
+            return 2
+        if sig in seen[0]:
+            print(f"VIOLATION property={prop} replay={path}")
+            return 1
+        print(f"replay: no violation for property={prop}")
+        return 0
     obs = []
     for _ in range(2):
         violates, o = mod.replay(unjson(rec["witness"]) if _ else witness)
